@@ -3,7 +3,7 @@ FOLD, NM2, LW11, RN7, SH5, FT11, LW12, FT12, FE1, OPT1."""
 import ast
 
 from sa.core import rule
-from sa.ir import sig_body, norm, dotted, call_name, recv_text, walk_local, names_in, calls_in_order, AnalysisError, assigned_targets
+from sa.ir import guard_facts, sig_body, norm, dotted, call_name, recv_text, walk_local, names_in, calls_in_order, AnalysisError, assigned_targets
 from sa.sai import Interp, Domain, FALL
 from sa.pe import specialise
 
@@ -13,6 +13,9 @@ def _q(f):
 
 
 def _guards(fnode, node):
+    """(test text, in-body?) of the enclosing ifs, plus the canonical facts of sa.ir.guard_facts as (fact, True): inverted
+    branches and early exits are seen as the positive guards they are equivalent to"""
+    from sa.ir import guard_facts
     par = {}
     for n in ast.walk(fnode):
         for ch in ast.iter_child_nodes(n):
@@ -24,6 +27,11 @@ def _guards(fnode, node):
         if isinstance(p, ast.If):
             out.append((norm(p.test), any(n is x for x in p.body)))
         n = p
+    have = {t for t, pos in out if pos}
+    for f in guard_facts(fnode, node, with_raise=False):
+        if f not in have:
+            out.append((f, True))
+            have.add(f)
     return out
 
 
@@ -55,7 +63,8 @@ def _fold_check(rr, f, acc, rid, what):
         mentions = acc in names_in(a.value)
         g = _guards(f.node, a)
         first = any((t.replace(" ", "") in ("%sisNone" % acc, "%s==None" % acc) and pos) or
-                    (t.replace(" ", "") in ("%sisnotNone" % acc, "%s!=None" % acc) and not pos) for t, pos in g)
+                    (t.replace(" ", "") in ("%sisnotNone" % acc, "%s!=None" % acc) and not pos) for t, pos in g) or \
+            any(t.replace(" ", "") in ("%sisNone" % acc, "%s==None" % acc) for t in guard_facts(f.node, a))
         if not mentions and not first:
             rr.finding(f, a, _q(f), "%s: inside the loop '%s = %s' replaces the accumulated %s instead of extending it: everything folded in by earlier "
                        "iterations is dropped" % (rid, acc, norm(a.value)[:70], what))
